@@ -13,13 +13,14 @@ import (
 func init() { register("C17", propC17) }
 
 func propC17(r *Report, tier string) {
-	r.Explanation = "Structural necessary conditions of 'queries and requests keep their meaning across JSON': (a) K10 dispatch simulation of ParseQuery: the ordered (key-presence / JSON-kind formula -> type) table is extracted from the source; for every concrete query type the keys it emits (custom MarshalJSON struct/map or its tags, with omitempty and JSON kinds) are enumerated over all presence/kind vectors and the first true branch must construct that same type whenever one of its own discriminating keys is present (finite, exhaustive); (b) K9c every key a query type's MarshalJSON writes is read back by its decoder (own tags or the aux struct of its UnmarshalJSON); (c) K9a/b SearchRequest.UnmarshalJSON carries every serialised request field; (d) K13 the type switches that must see through compound queries (ExtractFields, expandQuery) cover every compound query type; (e) K9b the pooled query-string lexer is fully reset when taken from its pool."
+	r.Explanation = "Structural necessary conditions of 'queries and requests keep their meaning across JSON': (a) K10 dispatch simulation of ParseQuery: the ordered (key-presence / JSON-kind formula -> type) table is extracted from the source; for every concrete query type the keys it emits (custom MarshalJSON struct/map or its tags, with omitempty and JSON kinds) are enumerated over all presence/kind vectors and the first true branch must construct that same type whenever one of its own discriminating keys is present (finite, exhaustive); (b) K9c every key a query type's MarshalJSON writes is read back by its decoder (own tags or the aux struct of its UnmarshalJSON); (c) K9a/b SearchRequest.UnmarshalJSON carries every serialised request field; (d) K13 the type switches that must see through compound queries (ExtractFields, expandQuery) cover every compound query type; (e) K9b the pooled query-string lexer is fully reset when taken from its pool; (f) K9c a MarshalJSON short-cut (compact form) takes every field into account that the full form encodes."
 	r.NotCovered = "query-string grammar equivalence and never-panics for arbitrary input (goyacc tables + hand lexer need input-space reasoning); result equality of the re-parsed query"
 	ruleParseQueryDispatch(r, "K10-dispatch")
 	ruleQueryMarshalKeysRead(r, "K9c-marshal-keys-read")
 	ruleSearchRequestDecoder(r, "K9a-search-request")
 	ruleCompoundSwitchCoverage(r, "K13-compound-coverage")
 	rulePooledLexerReset(r, "K9b-pooled-lexer-reset")
+	ruleCompactFormComplete(r, "K9c-compact-form-complete", "search", "search/query", "mapping", "bleve")
 	r.Floor("K10-dispatch", 25)
 	r.Floor("K9c-marshal-keys-read", 8)
 	r.Floor("K9a-search-request", 10)
